@@ -113,6 +113,28 @@ theorem record_lookup (s : St) (hb : s.broken = false) (name other : String) (l 
     simp only [h1, if_false]
     rw [findFork_filter name other hne]
 
+/-- **records are per name** (`record_other_name_activation_unchanged`): the record map is keyed by the exact name
+string, so for ALL strings `a ≠ b` — letter-case variants, names with and without spaces, prefixes of one another, the
+empty name — recording (or overwriting) fork `a` never changes which closure runs for fork `b`, at any block round. -/
+theorem record_other_name_activation_unchanged (s : St) (hb : s.broken = false) (a b : String) (hab : a ≠ b)
+    (l : Lookup) (blockRound : Int) (be ae : Bool) :
+    branch (lookup (record s a l) b) blockRound = branch (lookup s b) blockRound ∧
+    withActivation (lookup (record s a l) b) blockRound be ae = withActivation (lookup s b) blockRound be ae ∧
+    getRoundByName (lookup (record s a l) b) = getRoundByName (lookup s b) := by
+  rw [(record_lookup s hb a b l).2 (fun e => hab e.symm)]
+  exact ⟨rfl, rfl, rfl⟩
+
+/-- the two seeded scenarios, on the model: "Electra"@100 recorded leaves "electra" unrecorded; "Apollo"@50 then
+"apollo"@500 leaves "Apollo" post-fork at round 100. -/
+theorem case_variants_are_different_forks :
+    let s0 : St := { broken := false, forks := [] }
+    let s1 := record s0 "Electra" (.present 100)
+    let s2 := record (record s0 "Apollo" (.present 50)) "apollo" (.present 500)
+    branch (lookup s1 "electra") 150 = .before ∧ lookup s1 "electra" = .absent ∧
+    branch (lookup s2 "Apollo") 100 = .after ∧ branch (lookup s2 "apollo") 100 = .before ∧
+    branch (lookup (record s0 "" (.present 7)) "a b") 7 = .before := by
+  decide
+
 /-- a fork never recorded in a healthy state is `absent`. -/
 theorem never_recorded_absent (name : String) : lookup { broken := false, forks := [] } name = .absent := by
   simp [lookup, findFork]
